@@ -191,11 +191,13 @@ def decompile_digest(text: str, source_map) -> dict:
 def process_settings() -> dict:
     """Interpreter-wide settings a call could change and later calls depend on (part of every outcome digest in the
     history and schedule checks: a call must leave them as it found them, or at least always leave them the same)."""
+    import os
     import sys
     import warnings
 
     return {
         "recursionlimit": sys.getrecursionlimit(),
+        "cwd": os.getcwd(),
         # the warnings machinery is process-global: a call that saves and restores it (catch_warnings) around its own
         # work leaves it changed when two such calls overlap
         "warnings": [len(warnings.filters), getattr(warnings.showwarning, "__qualname__", type(warnings.showwarning).__name__),
